@@ -59,6 +59,11 @@ func (c *concurrencyOperator) Next(ctx context.Context) ([]model.StepVector, err
 
 	r, ok := <-c.buffer
 	if !ok {
+		// The buffer is also closed after a cancellation whose error message was
+		// consumed by drainBufferOnCancel: never report that as a clean end of stream.
+		if err := ctx.Err(); err != nil {
+			return nil, err
+		}
 		return nil, nil
 	}
 	if r.err != nil {
